@@ -188,11 +188,12 @@ def main():
     for f, t, vs, j in codec.load_corpus("C06") + codec.load_corpus("C02") + codec.load_corpus("C01"):
         cases.append(("corpus", f, t))
     k = 1 if quick else 2
-    cases += codec.gen_schemas(chk.tier, chk.seed, want_random=60 if quick else 1500, k=k)
+    cases += codec.gen_schemas(chk.tier, chk.seed, want_random=60 if quick else 400, k=k)
     if not quick:
         # the length-2 sequences without wrappers keep the thorough tier within minutes
         cases = [c for c in cases if "@" not in c[1] or c[1].count("+") == 0]
-    entries = run(chk, cases, rng, 2 if quick else 3, 40 if quick else 250, "gen")
+        cases = [c for i, c in enumerate(cases) if c[0] != "exhaustive" or i % 3 == 0]
+    entries = run(chk, cases, rng, 2 if quick else 3, 40 if quick else 80, "gen")
     streams = {}
     for s_, _, _ in cases:
         streams[s_] = streams.get(s_, 0) + 1
